@@ -5,6 +5,12 @@ CONSTANTS
   MaxReq = 3
   Overlap = FALSE
   ReturnOnEOF = TRUE
+  MaxPause = 0
+  IdleLimit = 0
+  MaxFaults = 0
+  AcceptSurvives = TRUE
   Drops = FALSE
   Exits = FALSE
+  Pauses = FALSE
+  Faults = FALSE
 CHECK_DEADLOCK FALSE
